@@ -226,7 +226,7 @@ def check(prop, tier, repo, seed):
                     print("FAILING INPUT (kani harness %s, replayed natively: %s): %s" % (r["harness"], (r.get("native_replay") or {}).get("confirmed"), r.get("input_hex")))
             else:
                 reason = r.get("reason", "undecided") or "undecided"
-                if reason.startswith("timeout") or reason == "out of memory":
+                if reason.startswith(("timeout", "out of memory", "memory limit")):
                     # not explored within the budget: says nothing about the property (exit code unaffected, listed in the evidence)
                     kani_unexplored.append("%s: %s" % (r["harness"], reason))
                 elif (reason.startswith("check failed") or "did not reproduce natively" in reason) and (r["harness"] in KANI_UNRELIABLE or tier == "thorough"):
